@@ -13,3 +13,6 @@ pub use graph::{
 pub use schedule::{
     ComputedScheduleError, ComputedScheduleItem, Schedule, ScheduleSeconds, Seconds, TimeSpan,
 };
+
+#[cfg(rigetti_quil_rs_verif)]
+pub use graph::verif_hooks;
